@@ -81,6 +81,8 @@ struct Cfg {
     asref: bool,
     t9: bool,
     t13: bool,
+    t15: bool,
+    keep_derive: Vec<String>,
     deref_assign_rhs: bool,
     self_rename: Option<(String, String)>,
     kind_param: Vec<String>, // names standing for the array kind: K, VecKind
@@ -209,6 +211,24 @@ impl<'a> V<'a> {
 impl<'a, 'ast> Visit<'ast> for V<'a> {
     fn visit_attribute(&mut self, a: &'ast Attribute) {
         let (lo, hi) = rng(a);
+        // a #[derive(..)] on an extracted type keeps the traits named in `keep_derive` (those Verus understands and
+        // the contracts rely on: Clone, Copy, PartialEq, Eq); every other attribute is dropped
+        if a.path().is_ident("derive") && !self.cfg.keep_derive.is_empty() {
+            let mut kept: Vec<String> = vec![];
+            let _ = a.parse_nested_meta(|m| {
+                if let Some(id) = m.path.get_ident() {
+                    let id = id.to_string();
+                    if self.cfg.keep_derive.contains(&id) {
+                        kept.push(id);
+                    }
+                }
+                Ok(())
+            });
+            if !kept.is_empty() {
+                self.ed.replace(lo, hi, format!("#[derive({})]", kept.join(", ")), "derive-kept");
+                return;
+            }
+        }
         self.ed.replace(lo, hi, String::new(), "attr-dropped");
     }
 
@@ -422,6 +442,35 @@ impl<'a, 'ast> Visit<'ast> for V<'a> {
                     }
                 }
             }
+            Expr::MethodCall(m) if self.cfg.t15 && m.method == "for_each" && m.args.len() == 1 && is_iter_mut(&m.receiver) && matches!(&m.args[0], Expr::Closure(_)) => {
+                // T15(b):  RECV.iter_mut().for_each(|x| BODY)  ->
+                //   { let mut i = 0; while i < RECV.len() INV { let x = &mut RECV[i]; BODY; i += 1; } }
+                // (what IterMut + for_each do: every position once, in order, through a mutable reference)
+                if let (Expr::MethodCall(mm), Expr::Closure(cl)) = (&*m.receiver, &m.args[0]) {
+                    if cl.inputs.len() == 1 {
+                        let recv = self.ed.r(&*mm.receiver);
+                        let x = match &cl.inputs[0] {
+                            Pat::Type(pt) => self.ed.r(&*pt.pat),
+                            p => self.ed.r(p),
+                        };
+                        let body = self.ed.r(&*cl.body);
+                        // the closure just visited is the most recent one
+                        let cidx = self.closure_ctr;
+                        let ann = self.cfg.closures.get(&cidx).cloned();
+                        let (_itn, inv) = loop_annotation(&ann);
+                        let getf = |k: &str| ann.as_ref().and_then(|a| a.get(k)).and_then(|v| v.as_str()).unwrap_or("").to_string();
+                        let (pre, post) = (getf("body_pre"), getf("body_post"));
+                        let ctr = format!("vx_c{}", cidx);
+                        let s = format!(
+                            "{{ let mut {c}: usize = 0;\n    while {c} < {r}.len(){inv}\n    {{\n        {pre}\n        let {x} = &mut {r}[{c}];\n        {body};\n        {c} += 1;\n        {post}\n    }} }}",
+                            c = ctr, r = recv, inv = inv, pre = pre, x = x, body = body, post = post
+                        );
+                        self.ed.replace(lo, hi, s, "T15");
+                    } else {
+                        self.errors.push("T15 needs a single closure parameter".into());
+                    }
+                }
+            }
             Expr::MethodCall(m) => {
                 let name = m.method.to_string();
                 let recv = self.ed.r(&*m.receiver);
@@ -489,7 +538,7 @@ impl<'a, 'ast> Visit<'ast> for V<'a> {
                 self.handle_macro(&m.mac, lo, hi, false);
             }
             Expr::Closure(c) => {
-                if let Some(ann) = self.cfg.closures.get(&my_closure).cloned() {
+                if let Some(ann) = self.cfg.closures.get(&my_closure).cloned().filter(|a| a.get("t15").is_none()) {
                     let header = ann.get("header").and_then(|v| v.as_str()).unwrap_or("").to_string();
                     let spec = ann.get("spec").and_then(|v| v.as_str()).unwrap_or("").to_string();
                     let (blo, bhi) = rng(&*c.body);
@@ -521,9 +570,36 @@ impl<'a, 'ast> Visit<'ast> for V<'a> {
                     pre_inserts: vec![],
                     iter_lo: rng(&*f.expr).0,
                 };
+                // T15(a):  for PAT in &mut X { BODY }  ->  let mut j = 0; while j < X.len() INV { let PAT = &mut X[j]; BODY j += 1; }
+                let mut is_t15 = false;
+                if self.cfg.t15 {
+                    if let Expr::Reference(rf) = &*f.expr {
+                        if rf.mutability.is_some() {
+                            let ctr = format!("vx_j{}", my_loop);
+                            let recv = self.ed.r(&*rf.expr);
+                            let pat_s = self.ed.r(&*f.pat);
+                            let body_src = &self.ed.src[rng(&f.body).0..rng(&f.body).1];
+                            if body_src.contains("continue") {
+                                self.errors.push("T15 cannot rewrite a loop containing `continue`".into());
+                            }
+                            let (_elo, ehi) = rng(&*f.expr);
+                            self.ed.replace(lo, ehi, format!("while {} < {}.len()", ctr, recv), "T15");
+                            info.pre_inserts.push(format!("let mut {}: usize = 0;\n", ctr));
+                            info.body_first_inserts.push(format!("let {} = &mut {}[{}];", pat_s, recv, ctr));
+                            let close = rng(&f.body.brace_token.span.close()).0;
+                            self.ed.insert(close, format!(" {} += 1; ", ctr), "");
+                            info.iter_lo = usize::MAX;
+                            is_t15 = true;
+                        }
+                    }
+                }
                 let mut pat: &Pat = &f.pat;
                 let (plo, phi) = rng(&*f.pat);
                 let mut pat_text: Option<String> = None;
+                if is_t15 {
+                    self.loops.push(info);
+                    return;
+                }
                 // T8: enumerate
                 if let (Expr::MethodCall(m), Pat::Tuple(pt)) = (&*f.expr, &*f.pat) {
                     if m.method == "enumerate" && m.args.is_empty() && pt.elems.len() == 2 {
@@ -575,6 +651,13 @@ impl<'a, 'ast> Visit<'ast> for V<'a> {
             _ => {}
         }
     }
+}
+
+fn is_iter_mut(e: &Expr) -> bool {
+    if let Expr::MethodCall(m) = e {
+        return m.method == "iter_mut" && m.args.is_empty();
+    }
+    false
 }
 
 fn is_into_iter(e: &Expr) -> bool {
@@ -771,6 +854,10 @@ fn cfg_from(req: &Value) -> Cfg {
         c.asref = r.get("asref").and_then(|v| v.as_bool()).unwrap_or(false);
         c.t9 = r.get("t9").and_then(|v| v.as_bool()).unwrap_or(false);
         c.t13 = r.get("t13").and_then(|v| v.as_bool()).unwrap_or(false);
+        c.t15 = r.get("t15").and_then(|v| v.as_bool()).unwrap_or(false);
+        if let Some(a) = r.get("keep_derive").and_then(|v| v.as_array()) {
+            c.keep_derive = a.iter().filter_map(|x| x.as_str().map(|s| s.to_string())).collect();
+        }
         c.deref_assign_rhs = r.get("deref_assign_rhs").and_then(|v| v.as_bool()).unwrap_or(false);
         if let Some(a) = r.get("self_rename").and_then(|v| v.as_array()) {
             if a.len() == 2 {
